@@ -1,2 +1,11 @@
 #!/bin/sh
-exit 0
+# MANIFEST.setup_cmd: build the framework from files on disk only (offline).
+set -e
+cd "$(dirname "$0")"
+export GOFLAGS=-mod=mod GOPROXY=off GOSUMDB=off GOTOOLCHAIN=local
+mkdir -p harness/bin evidence replays work
+cp /repo/go.sum harness/go.sum
+(cd harness && go build -tags verif -o bin/vh ./cmd/vh && go build -o bin/extract ./cmd/extract)
+harness/bin/extract -repo /repo -out lean/TxVerif/Gen/Facts.lean
+(cd lean && lake build TxVerif driver)
+echo "setup ok"
